@@ -13,7 +13,7 @@
      queue itself, as the C code does), so the theorems hold for any enqueue / wakeup behaviour of the lane layer.
    Definitions only; proofs are in Proofs/SrcLife_proofs.v. *)
 From Coq Require Import ZArith Bool List.
-From Verif Require Import Word Conc Gen_consts Gen_srclife.
+From Verif Require Import Word Conc Gen_consts Gen_fields Gen_srclife.
 Import ListNotations.
 Local Open Scope Z_scope.
 
@@ -569,6 +569,57 @@ Definition is_fin (a : action) : bool := match a with AFinalize _ _ => true | _ 
 Definition is_fin_twice (a : action) : bool := match a with AFinalize _ true => true | _ => false end.
 
 
+(* ------------------------------------------------------------------ atomic sites of the modelled functions
+   For every program point of the lock owner: the atomic operations of _dispatch_source_invoke2 (inlined callees included)
+   that the phase starting there stands for, in source order; likewise the tests of _dispatch_source_wakeup and the steps of
+   cancel / cancel_and_wait.  Proofs/SrcLife_phase_proofs.v: these lists are the ones src2v reads from src/source.c
+   (Gen_srclife.*_sites), so adding, dropping or reordering an atomic operation in those functions breaks the tie. *)
+Definition st_ (k : akind) (f : nat) (o : morder) : site := {| s_kind := k; s_field := f; s_order := o |}.
+Definition ldF := st_ KLoad F_dq_atomic_flags Relaxed.
+Definition ldU := st_ KLoad F_du_state Relaxed.
+Definition ldP := st_ KLoad F_ds_pending_data Relaxed.
+Definition ldH := st_ KLoad F_ds_handler Relaxed.
+Definition xH := st_ KXchg F_ds_handler Relaxed.
+Definition ldCfg := st_ KLoad F_dt_pending_config Relaxed.
+Definition ldS := st_ KLoad F_dq_state Relaxed.
+Definition rmwF : list site := [ldF; st_ KCasWeak F_dq_atomic_flags Relaxed].     (* an os_atomic_rmw_loop on dq_atomic_flags *)
+Definition unreg_sites : list site := rmwF ++ rmwF.    (* _dispatch_source_refs_unregister: finalize (source.c:594), deferred loop (:618) *)
+
+Definition phase_sites (p : opc) : list site :=
+  match p with
+  | OA1 => rmwF ++ [ldS]                       (* :636 registration failed: finalize; :763 DISPATCH_QUEUE_IS_SUSPENDED *)
+  | OA2 => [ldCfg; ldF]                        (* :768, :769 *)
+  | OA3 => [ldH; xH]                           (* :778, registration callout: handler_take (:441) *)
+  | OA4 => ldU :: unreg_sites                  (* :788, :789 *)
+  | OP1 => [ldF; ldP]                          (* :792, :794 *)
+  | OLatch => [ldH; st_ KXchg F_ds_pending_data Relaxed; st_ KFence F_fence Acquire]   (* :533, :534, :515 *)
+  | OInEh => [ldCfg; xH]                       (* after the callout: :578 timer reconfiguration, :583 dispatch_after one-shot *)
+  | OP2 => [ldF; ldP]                          (* :800, :814 *)
+  | OP3 => ldU :: unreg_sites                  (* :828, :837 *)
+  | OP3b => [ldF]                              (* :838 *)
+  | OP4 => [ldH; ldH; ldH; xH; xH; xH]         (* :846-848, cancel callout :461-465 *)
+  | OP4b => [ldF]                              (* :852 *)
+  | OP5 => [ldU; ldCfg; ldU; ldS; ldU; ldU]    (* :858 needs_rearm (:492-497), :863, :868, :878 *)
+  | _ => []
+  end.
+Definition invoke2_points : list opc := [OA1; OA2; OA3; OA4; OP1; OLatch; OInEh; OP2; OP3; OP3b; OP4; OInCh; OP4b; OP5].
+Definition model_sites_invoke2 : list site :=
+  (* :724 wlh changed?, :702 handle_wlh_change, :728 class probe: not modelled, they precede the first program point *)
+  [ldU; st_ KOr F_dq_atomic_flags Relaxed; st_ KLoad F_dq_items_tail SeqCst] ++ flat_map phase_sites invoke2_points.
+(* _dispatch_source_wakeup (source.c:919-969) in the order of the tests of wakeup_target *)
+Definition model_sites_wakeup : list site :=
+  [ldF; ldU; ldCfg; ldH; ldP; ldU; ldH; ldH; ldH; ldU; ldCfg; ldU; st_ KLoad F_dq_items_tail SeqCst].
+(* dispatch_source_cancel: retain, GCancel's fetch-or *)
+Definition model_sites_cancel : list site := [st_ KAdd F_os_obj_ref_cnt Relaxed; st_ KOr F_dq_atomic_flags Relaxed].
+(* dispatch_source_cancel_and_wait: the handler check, GCawEnter's loop, the try-lock loop on dq_state, OCD1 (load, unregister),
+   OCD2 (load, cancel callout), the wait loop (CWLoad, the waiter CAS, CWLoad) *)
+Definition model_sites_caw : list site :=
+  [ldH] ++ rmwF ++ [ldS; st_ KCasWeak F_dq_state SeqCst] ++ (ldF :: unreg_sites) ++ (ldF :: [xH; xH; xH]) ++
+  [ldF; st_ KCas F_dq_atomic_flags Relaxed; ldF].
+(* which program points read dq_atomic_flags first thing (the reads the global replay ties to recorded loads) *)
+Definition starts_with_flags_read (p : opc) : bool :=
+  match phase_sites p with s :: _ => match s_kind s, s_field s with KLoad, 17%nat => true | _, _ => false end | [] => false end.
+
 (* ------------------------------------------------------------------ per-thread monitor for recorded traces
    One thread's recorded events on one source's dq_atomic_flags word (DISPATCH_VERIF hook) and the harness marks
    (callout begin/end).  It accepts exactly what the model lets a thread do with the word: every write is one of the
@@ -613,6 +664,7 @@ Definition mon_step (kt kd : Z) (m : mst) (e : event) : option mst :=
     match m_last m with
     | None => None
     | Some v => if ea e =? 0 then (if negb (has v BIT_CANCELED) && negb (has v BIT_RELEASED) then Some m else None)
+                else if ea e =? 2 then Some m      (* registration handler: guarded by a plain read the hook does not see *)
                 else (if has v BIT_CANCELED && has v BIT_DELETED then Some m else None)
     end
   else if (k =? DVU_CALLOUT_END) || (k =? DVU_CALL) || (k =? DVU_RET) || (k =? DVU_MARK) then Some m
